@@ -268,12 +268,16 @@ type Sched struct {
 	Trace      []Step
 	Preempts   int
 	ScriptMiss int
+	// OnStep, if set, runs on the scheduler goroutine at every quiescent point (before each
+	// release): harness samplers read state here.
+	OnStep func()
+	mainG  int64
 }
 
 // NewSched installs a scheduler. focus is a list of site prefixes ("file.go" or
 // "file.go:Func"); empty means every site.
 func NewSched(seed uint64, strat Strategy, focus ...string) *Sched {
-	s := &Sched{byG: map[int64]*Task{}, rng: mix(seed) | 1, focus: focus, strat: strat}
+	s := &Sched{byG: map[int64]*Task{}, rng: mix(seed) | 1, focus: focus, strat: strat, mainG: goid()}
 	if strat.Kind == "pct" {
 		s.changes = map[int]bool{}
 		h := strat.Horiz
@@ -358,6 +362,9 @@ func (s *Sched) taskOf(create bool) *Task {
 func (s *Sched) yield(site string) {
 	if cur.Load() != s || !s.focused(site) {
 		return
+	}
+	if goid() == s.mainG {
+		return // the scheduler's own goroutine (harness code calling instrumented functions) never parks
 	}
 	t := s.taskOf(true)
 	s.park(t, site)
@@ -480,6 +487,9 @@ func (s *Sched) Run(maxSteps int, quantum time.Duration, maxIdle int) string {
 	idle := 0
 	for i := 0; i < maxSteps; i++ {
 		synctest.Wait()
+		if s.OnStep != nil {
+			s.OnStep()
+		}
 		if s.StepOnce() {
 			idle = 0
 			continue
